@@ -74,11 +74,12 @@ def r2_keyword_search(cx):
     cx.rule("C15.R2", "keyword search keeps the rows satisfying all conditions; each suffix selects the operation of the same name", floor=8)
     m = cx.repo.module(PR)
     fn = m.func("keyword_search", "C15.R2")
-    md = [a for a in walk_body(fn.body) if isinstance(a, ast.Assign) and U(a.targets[0]) == "matchers" and isinstance(a.value, ast.Dict)]
-    if not md:
+    md = [a for a in walk_body(fn.body) if isinstance(a, ast.Assign) and U(a.targets[0]) == "matchers"]
+    tv = feat.resolve_const(m, fn, md[0].value) if md else None
+    if not md or not isinstance(tv, ast.Dict):
         cx.unknown(fn, "no literal matcher table")
         return
-    tbl = dict((const_str(k), v) for k, v in zip(md[0].value.keys, md[0].value.values))
+    tbl = dict((const_str(k), v) for k, v in zip(tv.keys, tv.values))
     for name, ops in MATCHER_OPS.items():
         if name not in tbl:
             cx.bad(md[0], "documented suffix '%s' is in the matcher table" % name, construct="keys: %s" % sorted(tbl))
